@@ -96,6 +96,10 @@ func genDispatch(c *ctx) string {
 	}
 	b.WriteString("def nullVarUsesDefault : Bool := " + nv + "\n")
 	b.WriteString("def argCountCheckOnly : Bool := " + sortArgsForm(c) + "\n")
+	b.WriteString("def subtypeNarrow : Bool := " + isSubTypeForm(c) + "\n")
+	b.WriteString("def dupScalarDropped : Bool := " + dupScalarForm(c) + "\n")
+	b.WriteString("def dirArgWrapperAccepted : Bool := " + dirArgTypeTest(c) + "\n")
+	b.WriteString("def descRaw : Bool := " + descForm(c) + "\n")
 	lnc, su := replaceArgVarsForms(c)
 	b.WriteString("def listNotCoerced : Bool := " + lnc + "\n")
 	b.WriteString("def symbolUnchecked : Bool := " + su + "\n")
@@ -174,4 +178,106 @@ func sortArgsForm(c *ctx) string {
 		return "false"
 	}
 	return unknown("sortArgs body", c.pos(fd))
+}
+
+// isSubTypeForm reads (*Object).isSubType: the first commit's form (covariance only for T vs T!, D45) or the
+// repaired one (a non-null implementation type is unwrapped, together with the interface's own `!`).
+func isSubTypeForm(c *ctx) string {
+	fd := c.funcs["Object.isSubType"]
+	if fd == nil {
+		return unknown("isSubType", "object.go")
+	}
+	src := regexp.MustCompile(`(?m)//.*$`).ReplaceAllString(c.src(fd.Body), "")
+	src = regexp.MustCompile(`\s+`).ReplaceAllString(src, " ")
+	const eq = `if typeEqual(target, sub) { return true }`
+	const union = `case *Union: for _, m := range tt.Members { if typeEqual(m, sub) { return true } }`
+	const iface = `case *Interface: if ot, _ := sub.(*Object); ot != nil { for _, i := range ot.Interfaces { if typeEqual(i, target) { return true } } }`
+	const list = `case *List: if list, _ := sub.(*List); list != nil { return t.isSubType(tt.Base, list.Base) }`
+	const nn = `case *NonNull: if nn, _ := sub.(*NonNull); nn != nil { return t.isSubType(tt.Base, nn.Base) }`
+	switch src {
+	case `{ ` + eq + ` if st, ok := sub.(*NonNull); ok && typeEqual(target, st.Base) { return true } switch tt := target.(type) { ` + union + ` ` + iface + ` ` + list + ` ` + nn + ` } return false }`:
+		return "true"
+	case `{ ` + eq + ` if st, ok := sub.(*NonNull); ok { if tn, ok := target.(*NonNull); ok { return t.isSubType(tn.Base, st.Base) } return t.isSubType(target, st.Base) } switch tt := target.(type) { ` + union + ` ` + iface + ` ` + list + ` } return false }`:
+		return "false"
+	}
+	return unknown("isSubType body", c.pos(fd))
+}
+
+// dupScalarForm reads the duplicate test of (*Root).addTypes: is a scalar whose name is taken always skipped
+// (D43), or only when the name is taken by a scalar?
+func dupScalarForm(c *ctx) string {
+	fd := c.funcs["Root.addTypes"]
+	if fd == nil {
+		return unknown("addTypes", "root.go")
+	}
+	src := regexp.MustCompile(`(?m)//.*$`).ReplaceAllString(c.src(fd.Body), "")
+	src = regexp.MustCompile(`\s+`).ReplaceAllString(src, " ")
+	const dup = `return fmt.Errorf("%w: %s is already in the schema", ErrDuplicate, name) }`
+	oldForm := strings.Contains(src, `if root.types.get(name) != nil { if t.Rank() == rankScalar { continue } `+dup)
+	newForm := strings.Contains(src, `if cur := root.types.get(name); cur != nil { if t.Rank() == rankScalar && cur.Rank() == rankScalar { continue } `+dup)
+	switch {
+	case oldForm && !newForm && strings.Count(src, "continue") == 1:
+		return "true"
+	case newForm && !oldForm && strings.Count(src, "continue") == 1:
+		return "false"
+	}
+	return unknown("addTypes duplicate test", c.pos(fd))
+}
+
+// dirArgTypeTest reads the input-type test of (*Directive).Validate on a directive argument's type: only the
+// outer type is asked for InCoercer (D44: List / NonNull of anything pass), or IsInputType as well?
+func dirArgTypeTest(c *ctx) string {
+	fd := c.funcs["Directive.Validate"]
+	if fd == nil {
+		return unknown("Directive.Validate", "directive.go")
+	}
+	res := unknown("Directive.Validate argument type test", c.pos(fd))
+	n := 0
+	ast.Inspect(fd.Body, func(nd ast.Node) bool {
+		if is, ok := nd.(*ast.IfStmt); ok && is.Init != nil && c.src(is.Init) == "co, _ := a.Type.(InCoercer)" {
+			n++
+			switch c.src(is.Cond) {
+			case "co != nil":
+				res = "true"
+			case "co != nil && IsInputType(a.Type)", "IsInputType(a.Type) && co != nil":
+				res = "false"
+			}
+			if is.Else == nil {
+				res = unknown("Directive.Validate argument type test has no else", c.pos(is))
+			}
+		}
+		return true
+	})
+	if n != 1 {
+		return unknown("Directive.Validate argument type test sites", c.pos(fd))
+	}
+	return res
+}
+
+// descForm reads writeDesc: is the description text written raw (D32), or through escapeDesc (whose body must
+// be the known one: backslash doubled; in the block form a quote followed by a quote or a backslash escaped)?
+func descForm(c *ctx) string {
+	fd := c.funcs["writeDesc"]
+	if fd == nil {
+		return unknown("writeDesc", "base.go")
+	}
+	src := regexp.MustCompile(`\s+`).ReplaceAllString(c.src(fd.Body), " ")
+	raw := strings.Contains(src, `w.Write([]byte(strings.ReplaceAll(desc, "\n", shift)))`) && strings.Contains(src, `w.Write([]byte(desc))`)
+	esc := strings.Contains(src, `w.Write([]byte(strings.ReplaceAll(escapeDesc(desc, true), "\n", shift)))`) && strings.Contains(src, `w.Write([]byte(escapeDesc(desc, false)))`)
+	switch {
+	case raw && !esc && !strings.Contains(src, "escapeDesc"):
+		return "true"
+	case esc && !raw && strings.Count(src, "escapeDesc") == 2:
+		ed := c.funcs["escapeDesc"]
+		if ed == nil {
+			return unknown("escapeDesc", "base.go")
+		}
+		body := regexp.MustCompile(`\s+`).ReplaceAllString(c.src(ed.Body), " ")
+		const want = "{ if !strings.ContainsAny(desc, \"\\\\\\\"\") { return desc } var b strings.Builder for i := 0; i < len(desc); i++ { c := desc[i] switch { case c == '\\\\': b.WriteString(`\\\\`) case c == '\"' && block && i+1 < len(desc) && (desc[i+1] == '\"' || desc[i+1] == '\\\\'): b.WriteString(`\\\"`) default: b.WriteByte(c) } } return b.String() }"
+		if body == want {
+			return "false"
+		}
+		return unknown("escapeDesc body", c.pos(ed))
+	}
+	return unknown("writeDesc body", c.pos(fd))
 }
